@@ -9,7 +9,8 @@
  * pure function gen(i) of its sequence number) and an explicit tail for the
  * operations of the search. No ring arithmetic, no folding.
  *
- * Search: for every start state (message count P in {0,1,254..258,510..514} and
+ * Search: for every start state (message count P in {0,1,254..258,510..514}, P = 2^b + {-1,0,1,255,256}
+ * for b = 9..30 (every width the counter could be narrowed to), and
  * P = 0x7fffffff+j, j = -300..299, i.e. every residue mod 256 on both sides of
  * the point where mlog.c folds its counter) vx_bfs over all sequences of <= D
  * operations from {mlog with 0,1,2,3 arguments, mlog_nice, mlog_clear}. After
@@ -331,10 +332,17 @@ static int op_apply(int op)
 #define NSMALL 12
 static const uint64_t small_starts[NSMALL] = { 0, 1, 254, 255, 256, 257, 258, 510, 511, 512, 513, 514 };
 #define NFOLD 600
-#define NSTART (NSMALL + NFOLD)
+/* every binary width the counter could be cut to: 2^b-1, 2^b, 2^b+1, 2^b+255, 2^b+256 for b = 9..30 */
+#define NPOW (22 * 5)
+#define NSTART (NSMALL + NFOLD + NPOW)
 static uint64_t start_P(int i)
 {
 	if (i < NSMALL) return small_starts[i];
+	if (i >= NSMALL + NFOLD) {
+		static const int offs[5] = { -1, 0, 1, 255, 256 };
+		int j = i - NSMALL - NFOLD;
+		return (1ULL << (9 + j / 5)) + (uint64_t)(int64_t)offs[j % 5];
+	}
 	int j = i - NSMALL;		/* 0,-1,1,-2,2,... : nearest to the fold first */
 	int off = (j & 1) ? -((j + 1) / 2) : j / 2;
 	return FOLD + (uint64_t)(int64_t)off;	/* off in -300..299 */
